@@ -7,6 +7,31 @@ func genQuery(r *rng, uniq string) (q []byte, adv int) {
 	if r.coin(3) && uniq == "" {
 		labels = nil // root
 	}
+	if r.coin(4) {
+		// a name of (nearly) the maximum legal length: 255 wire octets = 63+63+63+61 label bytes + 4 length bytes + root
+		var ls [][]byte
+		if uniq != "" {
+			ls = append(ls, []byte(uniq))
+		}
+		total := 0
+		for _, l := range ls {
+			total += 1 + len(l)
+		}
+		budget := 254 - r.intn(3) - total // 254, 253 or 252 octets before the root byte
+		for budget > 1 {
+			n := budget - 1
+			if n > 63 {
+				n = 63
+			}
+			lab := make([]byte, n)
+			for i := range lab {
+				lab[i] = labelAlphabet[r.intn(len(labelAlphabet))]
+			}
+			ls = append(ls, lab)
+			budget -= 1 + n
+		}
+		labels = ls
+	}
 	name := encodeLabels(labels)
 	typ := pick(r, commonTypes)
 	if r.coin(50) {
